@@ -181,6 +181,32 @@ def float_mid_decimals():
                         if 0 < v <= oracle.I128_MAX:
                             out.append('d:%d:%d' % (v, n))
                             out.append('d:%d:%d' % (-v, n))
+    # Decimals with a coefficient below 2^53 (exact as f64, where a short cut through f64 arithmetic is
+    # tempting) that are NOT an f32 midpoint but lie within half an f64 ulp of one: the f64 image is the
+    # midpoint, and narrowing it to f32 rounds a second time (fixed pseudo-random significands, no seed)
+    x = 0x9E3779B97F4A7C15
+    for n in range(13, 19):
+        found = 0
+        tries = 0
+        while found < 40 and tries < 4000:
+            tries += 1
+            x = (x * 6364136223846793005 + 1442695040888963407) % (1 << 64)
+            M = (1 << 23) + (x >> 41)                      # 24-bit significand, the midpoint is (2M+1) * 2^(e-1)
+            target = Fraction((1 << 51) + ((x >> 8) % (1 << 51)))      # wanted coefficient size
+            mid0 = Fraction(2 * M + 1)
+            e = 0
+            while mid0 * 10 ** n * Fraction(2) ** e >= (1 << 53):
+                e -= 1
+            while mid0 * 10 ** n * Fraction(2) ** (e + 1) < target and mid0 * 10 ** n * Fraction(2) ** (e + 1) < (1 << 53):
+                e += 1
+            val = mid0 * 10 ** n * Fraction(2) ** e
+            c = int(val + Fraction(1, 2))
+            err = abs(val - c)
+            if err == 0 or c >= (1 << 53) or err * (1 << 54) >= c:
+                continue
+            found += 1
+            out.append('d:%d:%d' % (c, n))
+            out.append('d:%d:%d' % (-c, n))
     return out
 
 
